@@ -1,0 +1,14 @@
+//go:build verif
+
+package auction
+
+// Machine-checked contracts for the govc verifier (/verif). Comment-only; compiled only with -tags verif.
+
+// Begin-block hook of the first-generation auctions (C14): the per-row steps are verified inlined, so that the obligations
+// of the activators' call-site preconditions (breaker flag and emergency status are the stored ones of the row's own app)
+// are generated here for every row of the auction mapping table.
+//@ func BeginBlocker
+//@   property C14
+//@   explore steps
+//@   loop 0 invariant #any: true
+//@   loop 1 invariant #any: true
